@@ -45,6 +45,20 @@ fn mix(h: u64, v: u64) -> u64 {
     x
 }
 
+const RUNAWAY: u64 = 0xDEAD_0000_DEAD_0000;
+
+fn capped(it: impl Iterator<Item = usize>, cap: usize, mut h: u64) -> u64 {
+    let mut n = 0;
+    for p in it {
+        n += 1;
+        if n > cap {
+            return mix(h, RUNAWAY);
+        }
+        h = mix(h, p as u64);
+    }
+    h
+}
+
 fn enc(o: Option<usize>) -> u64 {
     match o {
         None => u64::MAX,
@@ -85,18 +99,24 @@ fn bytes_case(r: &mut Report, acc: &mut Acc, case: u64, hay: &[u8], nd: [u8; 3])
         ];
         // iterators: forward, reverse, alternating from both ends
         let mut h = 0u64;
-        for p in memchr::memchr_iter(nd[0], hay) {
-            h = mix(h, p as u64);
-        }
-        for p in memchr::memrchr2_iter(nd[0], nd[1], hay) {
-            h = mix(h, p as u64);
-        }
+        // an iterator over an n-byte haystack yields at most n positions:
+        // anything more is a runaway (it would never end) and is recorded
+        // as a value no reference produces
+        let cap = hay.len() + 2;
+        h = capped(memchr::memchr_iter(nd[0], hay), cap, h);
+        h = capped(memchr::memrchr2_iter(nd[0], nd[1], hay), cap, h);
         let mut it = memchr::memchr3_iter(nd[0], nd[1], nd[2], hay);
+        let mut rounds = 0;
         loop {
             let a = it.next();
             let b = it.next_back();
             h = mix(mix(h, enc(a)), enc(b));
+            rounds += 1;
             if a.is_none() && b.is_none() {
+                break;
+            }
+            if rounds > cap {
+                h = mix(h, RUNAWAY);
                 break;
             }
         }
@@ -181,16 +201,8 @@ fn sub_case(r: &mut Report, acc: &mut Acc, case: u64, needle: &[u8], hay: &[u8])
             enc(memmem::FinderRev::new(needle).rfind(hay)),
             enc(memmem::FinderBuilder::new().prefilter(memmem::Prefilter::None).build_forward(needle).find(hay)),
         ];
-        let mut h = 0u64;
-        for p in memmem::find_iter(hay, needle) {
-            h = mix(h, p as u64);
-        }
-        v.push(h);
-        let mut h = 0u64;
-        for p in memmem::rfind_iter(hay, needle) {
-            h = mix(h, p as u64);
-        }
-        v.push(h);
+        v.push(capped(memmem::find_iter(hay, needle), hay.len() + 2, 0));
+        v.push(capped(memmem::rfind_iter(hay, needle), hay.len() + 2, 0));
         v
     });
     r.evaluations += 7;
